@@ -94,6 +94,17 @@ Case gen_C19(uint64_t seed, long run, const GenCfg &g, const char *inflight) {
             draw_mem(o, A);
             if (r.chance(0.15)) { FaultSpec f; f.k = r.range(1, 9); f.persist = r.chance(0.5); o.faults.push_back(f); }
             ops.push_back(o);
+            // re-factoring through the computational routines (a third of the pipeline items; derived from the item's own seed, no extra
+            // draw): one or two steps with Fact = SamePattern / SamePattern_SameRowPerm, new values in most of them, storage faults in some
+            if ((o.rhs_seed >> 13) % 3 == 0) {
+                Rng rq(o.rhs_seed ^ 0x51BE); int steps = rq.range(1, 2);
+                for (int k = 0; k < steps; k++) {
+                    Op q = o; q.fact = rq.chance(0.6) ? SamePattern_SameRowPerm : SamePattern; q.faults.clear(); q.rhs_seed = rq.next(); q.stages = (int)rq.below(16); q.nrhs = rq.range(1, 3);
+                    if (rq.chance(0.7)) { Mat T = A; gen_values(rq, T, kValueModes[rq.below(4)], cplx); q.re = T.re; q.im = T.im; q.vchange = "unrelated"; }
+                    if (rq.chance(0.15)) { FaultSpec f; f.k = rq.range(1, 6); f.persist = rq.chance(0.5); q.faults.push_back(f); }
+                    ops.push_back(q);
+                }
+            }
         } else if (u < 0.70) { Op o; o.kind = "equil"; o.slot = slot; ops.push_back(o); }
         else if (u < 0.80) {
             static const char *qk[] = {"gssvx", "gssvx", "gsisx", "pipe", "ipipe"};
@@ -190,6 +201,9 @@ RunOutcome exec_C19(const Case &c) {
         if (r.skipped) { out.stats["ops_skipped"] += 1; continue; }
         out.stats["ops_executed"] += 1; out.stats["op_" + o.kind] += 1;
         if (o.kind == "new" && !o.reader.empty()) out.stats["op_new_via_reader_" + o.reader] += 1;
+        if ((o.kind == "pipe" || o.kind == "ipipe") && o.fact != DOFACT && o.lwork != -1) { out.stats[std::string("probe_") + o.kind + (o.fact == SamePattern ? "_SamePattern" : "_SameRowPerm")] += 1; if (r.permr_changed) out.stats["probe_pipe_reuse_pivot_abandoned"] += 1; if (r.expansions > 0) out.stats["probe_pipe_reuse_with_expansions"] += 1; }
+        if (o.kind == "util" && (o.stages & 64)) out.stats["probe_util_sp_gemv_direct"] += 1;
+        if (o.kind == "util" && (o.stages & 128)) out.stats["probe_util_sp_trsv_direct"] += 1;
         out.stats[std::string("exit_") + kExitName[r.cls]] += 1;
         if (r.cls == XC_SINGULAR) singular = true;
         bool isfact = (o.kind == "gssv" || o.kind == "pipe" || o.kind == "ipipe" || ((o.kind == "gssvx" || o.kind == "gsisx") && o.fact != FACTORED && o.lwork != -1) || o.kind == "bfactor");
